@@ -40,6 +40,30 @@ func registerClock() {
 	registerOnce.Do(func() { timebase.RegisterClock(simclock.Global) })
 }
 
+// origGatherer is the registry that the repository's package-level metrics were
+// registered with at init time (before any resetProm).
+var origGatherer = prometheus.DefaultGatherer
+
+// promCounter reads a counter registered at init time (e.g. the client metrics).
+func promCounter(name string) float64 {
+	mfs, err := origGatherer.Gather()
+	if err != nil {
+		return -1
+	}
+	for _, mf := range mfs {
+		if mf.GetName() == name {
+			var sum float64
+			for _, m := range mf.GetMetric() {
+				if m.GetCounter() != nil {
+					sum += m.GetCounter().GetValue()
+				}
+			}
+			return sum
+		}
+	}
+	return -1
+}
+
 // resetProm gives promauto a fresh default registry so that metrics can be
 // registered again in the next run.
 func resetProm() {
